@@ -364,12 +364,21 @@ func init() {
 		}
 		close(ch)
 		wg.Wait()
+		// part C: the upgrade interleaved with the running controller
+		var ilCases []c18Case
+		for _, c := range cases {
+			if c.Limit != 10 || (!thorough && (len(c.PodRevs) > 2 || c.NRevs > 2)) {
+				continue
+			}
+			ilCases = append(ilCases, c)
+		}
+		c18InterleavedAll(rep, ilCases, explore.Deadline(80*time.Second, 15*time.Minute))
 		rep.AddStates(totalStates, totalStates)
 		rep.Extra["templates_checked_for_byte_identity"] = nA
 		rep.Extra["migration_cases"] = done
 		rep.Extra["migration_states"] = totalStates
 		rep.Extra["migration_reconciles"] = totalRec
-		rep.Rule = fmt.Sprintf("(A) byte identity: for every template of a reflective generator over PodTemplateSpec (%d single-path mutations; thorough: all pairs in the first two levels) the real Match(FromBuiltin(sts), reference data) must hold, the reference being the built-in encoding. (B) migrations: built-in sets with histories T1..Tn (n=1..3), any current revision, 1..%d pods at any mix of current/update revision, partition 0/1, both policies, history limit 0/10; the real Upgrade runs, then all interleavings of real reconciles, one garbage-collector orphaning step per pod and revision, and kubelet progress are explored (explicit-state, deduplicated), also after any single interruption of the adopting reconciles (InternalError, conflict, lost response or crash at any write on revisions or pods); oracle on every reconcile: no revision is created, no revision of the built-in history is deleted before adoption, a pod is deleted only if the built-in controller would (RollingUpdate, ordinal >= partition, revision != update revision); every bottom SCC is a quiescent state with all revisions adopted and label-synced, data unchanged, status.updateRevision = the built-in one, pods adopted and converged.", len(muts), maxPods)
+		rep.Rule = fmt.Sprintf("(A) byte identity: for every template of a reflective generator over PodTemplateSpec (%d single-path mutations; thorough: all pairs in the first two levels) the real Match(FromBuiltin(sts), reference data) must hold, the reference being the built-in encoding. (B) migrations: built-in sets with histories T1..Tn (n=1..3), any current revision, 1..%d pods at any mix of current/update revision, partition 0/1, both policies, history limit 0/10; the real Upgrade runs, then all interleavings of real reconciles, one garbage-collector orphaning step per pod and revision, and kubelet progress are explored (explicit-state, deduplicated), also after any single interruption of the adopting reconciles (InternalError, conflict, lost response or crash at any write on revisions or pods); oracle on every reconcile: no revision is created, no revision of the built-in history is deleted before adoption, a pod is deleted only if the built-in controller would (RollingUpdate, ordinal >= partition, revision != update revision); every bottom SCC is a quiescent state with all revisions adopted and label-synced, data unchanged, status.updateRevision = the built-in one, pods adopted and converged. (C) the real Upgrade interleaved with the running controller: the helper runs in its own goroutine and is stopped before each of its API calls; between two calls any number of real reconciles, garbage-collector and kubelet steps may run, a failed Upgrade is re-run once; all schedules are explored by stateless re-execution with state pruning; same oracle on every reconcile, and the goal state at the end.", len(muts), maxPods)
 		rep.Validated = totalRec + nA
 		return rep.Finish()
 	})
